@@ -19,7 +19,7 @@ def _run(ctx, weights, n_quick, n_thorough, base):
 
 def run_c15(ctx):
     quick = ctx.quick
-    ctx.mc("MC_Convert", {"MaxLen": 5 if quick else 7}, ["GreedyIsValid", "JointOrderFree"], timeout=1500)
+    ctx.mc("MC_Convert", {"MaxLen": 5 if quick else 7}, ["GreedyIsValid", "JointOrderFree"], timeout=3600)
     ctx.mc("MC_Convert", {"MaxLen": 4}, ["BadNoPreDel"], expect_violation=True)
     tf = _run(ctx, [1, 1, 6], 150, 3000, 110000)
     n = grouped = 0
@@ -47,7 +47,7 @@ def run_c15(ctx):
 
 def run_c16(ctx):
     quick = ctx.quick
-    ctx.mc("MC_Convert", {"MaxLen": 5 if quick else 6}, ["JointOrderFree"], timeout=1500)
+    ctx.mc("MC_Convert", {"MaxLen": 5 if quick else 6}, ["JointOrderFree"], timeout=3600)
     tf = _run(ctx, [6, 3, 0], 150, 3000, 120000)
     n = multi = refused = 0
     for line in open(tf):
